@@ -1342,11 +1342,37 @@ func (f *Frugal) validateServices(includes map[string]*Frugal) error {
 		if err := f.validateServiceTypes(service, includes); err != nil {
 			return err
 		}
+		if err := f.validateServiceExtends(service, includes); err != nil {
+			return err
+		}
 		if err := service.validate(); err != nil {
 			return err
 		}
 	}
 	return nil
+}
+
+// validateServiceExtends ensures an extended service exists.
+func (f *Frugal) validateServiceExtends(service *Service, includes map[string]*Frugal) error {
+	if service.Extends == "" {
+		return nil
+	}
+	containing := f
+	if include := service.ExtendsInclude(); include != "" {
+		included, ok := includes[include]
+		if !ok {
+			return fmt.Errorf("Invalid service %s extended by %s, include %s doesn't exist",
+				service.Extends, service.Name, include)
+		}
+		containing = included
+	}
+	for _, s := range containing.Services {
+		if s.Name == service.ExtendsService() {
+			return nil
+		}
+	}
+	return fmt.Errorf("Invalid service %s extended by %s, service doesn't exist",
+		service.Extends, service.Name)
 }
 
 func (f *Frugal) validateServiceTypes(service *Service, includes map[string]*Frugal) error {
